@@ -66,7 +66,7 @@ fn example_for(rng: &mut Rng, rule: &Value) -> Value {
         Some(h) => h.replace("@sub", "abc").replace("@dom", "site.com"),
     };
     let mut path = s["path"].as_str().unwrap_or("/").to_string();
-    path = path.replace("@slug", &rng.pick_str(&["hello", "a-b"])).replace("@id", "42").replace("@any", "z");
+    path = path.replace("@slug", &rng.pick_str(&["hello", "a-b"])).replace("@id", "42").replace("@any", "z").replace("@uid", "42").replace("@num", "42").replace("@txt", "ab");
     if let Some(q) = s["query"].as_str() {
         path = format!("{path}?{q}");
     }
